@@ -11,9 +11,10 @@
 -/
 import Lomond.Proofs.GenTie
 import Lomond.Generated.Code
+import Lomond.Properties.C03_Z
 
 namespace Lomond.C03Gen
-open Lomond Lomond.Core Lomond.GenTie
+open Lomond Lomond.Core Lomond.Core.KS Lomond.GenTie
 open Lomond.Gen.Code
 
 /-! ### `Frame.build`: first byte, mask bit, header -/
@@ -220,5 +221,126 @@ example : Gen.Code.wsClose false false (some 1000) (List.replicate 124 65) =
     .error ⟨"ValueError", "close reason should be <= 123 bytes"⟩ := by decide +kernel
 example : Gen.Code.wsClose false false none (List.replicate 200 65) = .ok true := by decide +kernel
 example : Gen.Code.wsClose false true (some 1000) [] = .ok false := by decide
+
+/-! ### the frame `send_compressed` writes, and the masking key `Frame.build` draws -/
+
+open Lomond.ZFrame in
+/-- `send_compressed` constructs `Frame(opcode, payload=bytearray(compress(data)), rsv1=1)`: the
+    frame has FIN=1, RSV1=1, RSV2=RSV3=0, `mask=True` and no masking key of its own. -/
+theorem gen_sendCompressed_fields (opcode : Nat) (z : Bytes) :
+    sessionSendCompressedFrame opcode z = (opcode, z, 1, 1, 0, 0, true, none) := rfl
+
+/-- `Frame.to_bytes` hands the frame's fields to `Frame.build` unchanged — except `fin`, which it
+    does not pass: `Frame.build` is entered with its default `fin=1` whatever `self.fin` is. -/
+theorem gen_toBytes (opcode : Nat) (payload : Bytes) (fin rsv1 rsv2 rsv3 : Nat) (mask : Bool) (key : Option Bytes) :
+    frameToBytes opcode payload fin rsv1 rsv2 rsv3 mask key = (opcode, payload, 1, rsv1, rsv2, rsv3, mask, key) := rfl
+
+example : frameToBytes 2 [1, 2] 0 1 0 0 true none = (2, [1, 2], 1, 1, 0, 0, true, none) := rfl
+
+/-- `make_masking_key = partial(os.urandom, 4)`: a call is `os.urandom(4)`. -/
+theorem gen_makeMaskingKey (urandom : Nat → Bytes) : frameMakeMaskingKey urandom = urandom 4 := rfl
+
+/-- … so for an `os.urandom` that returns as many bytes as it is asked for, the key has 4 bytes. -/
+theorem gen_makeMaskingKey_length (urandom : Nat → Bytes) (h : ∀ n, (urandom n).length = n) :
+    (frameMakeMaskingKey urandom).length = 4 := h 4
+
+/-- `masking_key = make_masking_key() if masking_key is None else masking_key`: a frame without a
+    key of its own gets the fresh one; a given key is used as it is. -/
+theorem gen_buildKey (fresh k : Bytes) : frameBuildKey none fresh = fresh ∧ frameBuildKey (some k) fresh = k :=
+  ⟨rfl, rfl⟩
+
+/-- **The key source of a configuration is the source's.**  Every key `cfg.maskKey k` is what
+    `Frame.build` draws for a frame without a key of its own — `make_masking_key()`, i.e.
+    `os.urandom(4)` — for some `os.urandom` that keeps its contract (exactly `n` bytes for `n`). -/
+def KeysFromSource (cfg : Cfg) : Prop :=
+  ∀ k, ∃ urandom : Nat → Bytes, (∀ n, (urandom n).length = n) ∧
+    cfg.maskKey k = frameBuildKey none (frameMakeMaskingKey urandom)
+
+/-- **Masking keys have 4 bytes**: the hypothesis `hk` of the run-level theorems, from the source. -/
+theorem gen_key_length (cfg : Cfg) (h : KeysFromSource cfg) : ∀ k, (cfg.maskKey k).length = 4 := by
+  intro k
+  obtain ⟨urandom, hu, he⟩ := h k
+  rw [he, (gen_buildKey _ []).1]
+  exact gen_makeMaskingKey_length urandom hu
+
+/-- non-vacuity: the key source of the examples -/
+example : KeysFromSource { maskKey := fun k => [k + 1, 2, 3, 4] } := fun k =>
+  ⟨fun n => if n = 4 then [k + 1, 2, 3, 4] else List.replicate n 0,
+   fun n => by by_cases h : n = 4 <;> simp [h], rfl⟩
+
+open Lomond.ZFrame in
+/-- **`wireOf` renders what the source's chain builds.**  The bytes `ZFrame.wireOf` gives a
+    compressed entry are `Frame.build` entered with exactly the arguments the chain
+    `send_compressed → Frame(..) → to_bytes → Frame.build` binds (translated sites
+    `sessionSendCompressedFrame`, `frameToBytes`, `frameBuildKey`), the payload being the
+    compressor's output and the fresh key that of the entry's slot. -/
+theorem gen_wireOf (deflate : Deflater) (cfg : Cfg) (older : List Obs) (op : Nat) (plain : Bytes)
+    (hist : List Bytes) (hh : zHist older = some hist) :
+    wireOf deflate cfg older (.wrz op plain) =
+      (match sessionSendCompressedFrame op (deflate hist plain) with
+       | (o, p, fin, r1, r2, r3, mask, key) =>
+         match frameToBytes o p fin r1 r2 r3 mask key with
+         | (o', p', fin', r1', r2', r3', mask', key') =>
+           if mask' then Frame.build o' p' (frameBuildKey key' (cfg.maskKey (keyIdx older))) fin' r1' r2' r3'
+           else none) := by
+  simp [wireOf, hh, sessionSendCompressedFrame, frameToBytes, frameBuildKey]
+
+/-- `send_json`: ValueError exactly for positional *and* keyword arguments; otherwise
+    `json.dumps` receives the positional argument if there is one, else the dict of keyword
+    arguments, and `send_text(<its result>)` is called with the default `compress=True` — the
+    decisions of the model's `ZFrame.sendJson`. -/
+theorem gen_sendJson (hasObj hasKwargs : Bool) :
+    wsSendJson hasObj hasKwargs =
+      if hasKwargs ∧ hasObj then .error ⟨"ValueError", "send_json requires positional argument OR keyword arguments"⟩
+      else .ok (if hasObj then 1 else 2, true) := by
+  cases hasObj <;> cases hasKwargs <;> rfl
+
+open Lomond.ZFrame in
+/-- the model's `sendJson` takes the branches of the translated source: ValueError on the same
+    condition, and the object handed to `dumps` is the one the source hands to `json.dumps` -/
+theorem gen_sendJson_model {J : Type} (dumps : J → Option (List Nat)) (c : JsonCall J) :
+    sendJson dumps c =
+      match wsSendJson c.obj.isSome c.hasKwargs with
+      | .error e => logRes (pure (actResOf e))
+      | .ok (which, _) =>
+        match dumps (if which = 1 then c.obj.getD c.kwargs else c.kwargs) with
+        | none => logRes (pure .typeError)
+        | some text => doAct (.sendText (.str text) true) := by
+  rw [gen_sendJson]
+  unfold sendJson
+  cases ho : c.obj with
+  | none =>
+    cases hk : c.hasKwargs <;> simp [actResOf] <;> (cases dumps c.kwargs <;> rfl)
+  | some o =>
+    cases hk : c.hasKwargs <;> simp [actResOf]
+    cases dumps o <;> rfl
+
+/-! ### the run-level theorems with the key length taken from the source -/
+
+/-- `C03.every_written_frame_is_valid` with its hypothesis on the key length discharged from the
+    source: every key is `os.urandom(4)` as `Frame.build` draws it. -/
+theorem every_written_frame_is_valid_src (cfg : Cfg) (react : React) (env : List EnvStep)
+    (hv : cfg.v.closeArgs = true) (hsrc : KeysFromSource cfg) :
+    ∀ bytes, Obs.wr bytes ∈ (runAll cfg react env).trace →
+      bytes = cfg.request ∨
+      ∃ d, Spec.decodeClientFrame bytes = some (d, []) ∧
+        d.fin = 1 ∧ d.rsv1 = 0 ∧ d.rsv2 = 0 ∧ d.rsv3 = 0 ∧
+        (d.opcode = 1 ∨ d.opcode = 2 ∨ d.opcode = 8 ∨ d.opcode = 9 ∨ d.opcode = 10) ∧
+        (∃ k, d.key = cfg.maskKey k) ∧ (8 ≤ d.opcode → d.payload.length ≤ 125) :=
+  C03.every_written_frame_is_valid cfg react env hv (gen_key_length cfg hsrc)
+
+open Lomond.ZFrame in
+/-- `C03Z.every_compressed_frame_is_valid` likewise. -/
+theorem every_compressed_frame_is_valid_src (cfg : Cfg) (react : React) (env : List EnvStep)
+    (deflate : Deflater) (hsm : Small react) (hsrc : KeysFromSource cfg)
+    (newer older : List Obs) (op : Nat) (plain : Bytes)
+    (ht : (runAll cfg react env).trace = newer ++ .wrz op plain :: older)
+    (hist : List Bytes) (hh : zHist older = some hist) (hz : (deflate hist plain).length < 2 ^ 63) :
+    nWrites older ≠ 0 ∧ (op = 1 ∨ op = 2) ∧ hist = zPlains older ∧
+    ∃ bytes, wireOf deflate cfg older (.wrz op plain) = some bytes ∧
+      ∀ rest, Spec.decodeClientFrame (bytes ++ rest) =
+        some (C03Z.zDecoded op (cfg.maskKey (keyIdx older)) (deflate hist plain), rest) :=
+  C03Z.every_compressed_frame_is_valid cfg react env deflate hsm (gen_key_length cfg hsrc) newer older op plain ht
+    hist hh hz
 
 end Lomond.C03Gen
